@@ -97,7 +97,8 @@ def content_bytes(ref):
 
 
 class World:
-    def __init__(self, base, clock_seed=0):
+    def __init__(self, base, clock_seed=0, pid_base=1000):
+        self.pid_base = pid_base
         self.base = base  # <scratch>/<id>
         self.root = os.path.join(base, "w")
         self.side = os.path.join(base, "side")
@@ -335,6 +336,14 @@ class World:
                 os.makedirs(env[k], exist_ok=True)
         return env
 
+    def launch_env(self, env):
+        """per-process part of the environment: the simulated time at launch and a deterministic process id"""
+        self._launches = getattr(self, "_launches", 0) + 1
+        e = dict(env)
+        e["NSIM_NOW_NS"] = str(self.now)
+        e["NSIM_FAKE_PID"] = str(self.pid_base + self._launches)
+        return e
+
     def invoke(self, op, readdir_seed=None, trace=True):
         """run the real driver; returns a dict describing the invocation."""
         self.inv_count += 1
@@ -359,7 +368,7 @@ class World:
         elif df and df["kind"] == "kill_at_op":
             lf = {"kind": "kill_at_op", "k": df["k"], "root": self.root}
         pid = zygote.launch(
-            argv, cwd, env, os.devnull if lf else drv_log, fault=lf,
+            argv, cwd, self.launch_env(env), os.devnull if lf else drv_log, fault=lf,
             trace=None if lf else trace_path, proc="driver", readdir_seed=readdir_seed,
         )
         pidfd = os.pidfd_open(pid)
